@@ -248,6 +248,13 @@ class ElementList(MutableSequence):
             except KeyError:
                 self.indexes[child.name] = [child]
             self.list.insert(index, child)
+        elif any(c is child for c in self.list):
+            # the child has been appended while its parent was being set: move it to the requested position
+            self.list.remove(child)
+            self.list.insert(index, child)
+            if by_name_index != -1:
+                self.indexes[child.name].remove(child)
+                self.indexes[child.name].insert(by_name_index, child)
 
     def append(self, child):
         """
